@@ -55,7 +55,7 @@ def conc(cls, k):
         return pd.Timedelta(milliseconds=[-5_000, -3, 0, 7, 1000, 86_400_000, 10 ** 11][k])
     if cls == "td_s":
         return pd.Timedelta(seconds=[-5, -3, 0, 7, 1000, 86_400, 10 ** 8][k])
-    if cls == "cat_str":
+    if cls in ("cat_str", "cat_str_w"):
         return ["lab_a", "lab_b", "lab_c", "lab_d", "lab_e", "lab_f", "lab_g"][k]
     if cls == "cat_int":
         return [-500, -7, 0, 13, 140, 9999, 1234567][k]
@@ -91,6 +91,11 @@ def series(cls, cells, name="x"):
         return pd.Series([pd.NaT if m else v for v, m in zip(vals, miss)], dtype="datetime64[%s]" % unit, name=name)
     if cls.startswith("td_"):
         return pd.Series([pd.NaT if m else v for v, m in zip(vals, miss)], dtype="timedelta64[%s]" % cls[3:], name=name)
+    if cls == "cat_str_w":
+        # 200 categories, of which the column uses at most seven: two-byte codes
+        used = sorted({c for c in cells if c >= 0})
+        cats = [conc(cls, k) for k in reversed(used)] + ["pad_%03d" % i for i in range(200 - len(used))]
+        return pd.Series(pd.Categorical([None if m else v for v, m in zip(vals, miss)], categories=cats), name=name)
     if cls in ("cat_str", "cat_int", "cat_str_ord", "cat_int_ord"):
         # category order deliberately differs from the order of the labels, plus one unused category;
         # the _ord variants declare that order as THE order of the categorical (statistics still go by label value)
@@ -126,7 +131,7 @@ def cell_equal(cls, got, want_k):
         return pd.Timedelta(got) == want
     if cls == "obj_bytes":
         return bytes(got) == want
-    if cls in ("obj_str", "str", "cat_str", "obj_str_e"):
+    if cls in ("obj_str", "str", "cat_str", "cat_str_w", "obj_str_e"):
         return str(got) == want
     if cls.startswith("float"):
         return float(got) == float(np.dtype(NP_DTYPE[cls]).type(want))
@@ -143,7 +148,7 @@ def stat_equal(cls, got, want_k):
     import pandas as pd
     want = conc(cls, want_k)
     try:
-        if cls in ("obj_str", "str", "cat_str", "obj_str_e"):
+        if cls in ("obj_str", "str", "cat_str", "cat_str_w", "obj_str_e"):
             g = got.decode("utf8") if isinstance(got, (bytes, np.bytes_)) else str(got)
             return g == want
         if cls == "obj_bytes":
@@ -177,7 +182,7 @@ def dtype_ok(cls, dtype):
         return s == "datetime64[%s]" % {"dt_ns": "ns", "dt_us": "us", "dt_ms": "ms", "dt_s": "s"}[cls]
     if cls.startswith("td_"):
         return s.startswith("timedelta64")
-    if cls in ("cat_str", "cat_int"):
+    if cls in ("cat_str", "cat_int", "cat_str_w"):
         return s == "category"
     return False
 
@@ -242,7 +247,7 @@ def expected_logical(cls, k):
     if cls.startswith("float"):
         import numpy as np
         return ("float", float(np.dtype(NP_DTYPE[cls]).type(v)))
-    if cls in ("obj_str", "str", "cat_str", "obj_str_e"):
+    if cls in ("obj_str", "str", "cat_str", "cat_str_w", "obj_str_e"):
         return ("bytes", v.encode("utf8"))
     if cls == "obj_bytes":
         return ("bytes", v)
